@@ -155,10 +155,47 @@ def v2FileContractExpiration : Sch := .nil
 def attestation : Sch :=
   Sch.seq [("PublicKey", hash32), ("Key", .str), ("Value", .bytes), ("Signature", signature)]
 
+/-- v2 transaction: version byte 2, a 64-bit presence bitmap, then — for every set bit, in
+this order — the field. A bit is set iff the field is non-empty (slices, data), non-nil
+(foundation address) or non-zero (miner fee). -/
+def v2TransactionVersion : Nat := 2
+def v2TransactionFields : List (Nat × String × ZeroKind × Sch) := [
+  (0, "SiacoinInputs", .len, .slice v2SiacoinInput),
+  (1, "SiacoinOutputs", .len, .slice v2SiacoinOutput),
+  (2, "SiafundInputs", .len, .slice v2SiafundInput),
+  (3, "SiafundOutputs", .len, .slice v2SiafundOutput),
+  (4, "FileContracts", .len, .slice v2FileContract),
+  (5, "FileContractRevisions", .len, .slice v2FileContractRevision),
+  (6, "FileContractResolutions", .len, .slice (.ext "Types.V2FileContractResolution")),
+  (7, "Attestations", .len, .slice attestation),
+  (8, "ArbitraryData", .len, .bytes),
+  (9, "NewFoundationAddress", .never, hash32),
+  (10, "MinerFee", .zero, v2Currency)]
+
+/-- a resolution: the contract element being resolved, then a type tag
+(0 renewal, 1 storage proof, 2 expiration) and the payload of that type -/
+def v2FileContractResolutionTags : List (String × Nat) :=
+  [("V2FileContractRenewal", 0), ("V2StorageProof", 1), ("V2FileContractExpiration", 2)]
+
 /-! ### consensus -/
 
 /-- 256-bit big-endian work -/
 def work : Sch := Sch.seq [("n", .fixed 32)]
+
+/-- the accumulator: leaf count, then ONLY the roots of the trees that exist (bit `i` of
+the leaf count set), lowest height first. (`ext`: the count depends on the first field.) -/
+def elementAccumulator : Sch :=
+  Sch.seq [("NumLeaves", .u64), ("Trees", .ext "dep[hasTreeAtHeight(i)] Types_Hash256")]
+
+/-- the consensus state as hashed into the block commitment: only the first
+`min(height+1, 11)` timestamps are present; the network parameters are not part of it -/
+def state : Sch := Sch.seq [
+  ("Index", chainIndex), ("PrevTimestamps", .ext "dep[:numTimestamps()] .time"),
+  ("Depth", hash32), ("ChildTarget", hash32), ("SiafundTaxRevenue", v2Currency),
+  ("OakTime", .u64), ("OakTarget", hash32),
+  ("FoundationSubsidyAddress", hash32), ("FoundationManagementAddress", hash32),
+  ("TotalWork", work), ("Difficulty", work), ("OakWork", work),
+  ("Elements", elementAccumulator), ("Attestations", .u64)]
 
 def v1StorageProofSupplement : Sch := Sch.seq [("FileContract", fileContractElement), ("WindowID", hash32)]
 
